@@ -93,8 +93,6 @@ def evaluate(e, st, name):
         return 0.0 - v
     if k == "call":
         vs = [evaluate(a, st, name) for a in e[2]]
-        if any(math.isnan(v) for v in vs[:1]):
-            return float("nan")
         if e[1] == "abs":
             return abs(vs[0])
         # Rust f64::min / max ignore NaN operands
@@ -125,6 +123,31 @@ def evaluate(e, st, name):
         return fmod(a, b)
     except OverflowError:
         return float("inf")
+
+
+def ill_conditioned(e, st, name):
+    """a `%` applied to a non-integral (rounded) operand: the result is discontinuous in the operands, and the
+    model, which computes in ℚ and only tracks *that* a value was rounded, cannot predict it; likewise a division
+    by negative zero (the independent IEEE evaluation in this file still judges these cells)"""
+    k = e[0]
+    if k in ("lit", "col", "len"):
+        return False
+    if k == "neg":
+        return ill_conditioned(e[1], st, name)
+    if k == "call":
+        return any(ill_conditioned(a, st, name) for a in e[2])
+    if ill_conditioned(e[2], st, name) or ill_conditioned(e[3], st, name):
+        return True
+    if e[1] == "/":
+        d = evaluate(e[3], st, name)
+        if d == 0 and math.copysign(1.0, d) < 0:
+            return True         # division by negative zero: ℚ has no signed zero
+    if e[1] == "%":
+        for sub in (e[2], e[3]):
+            v = evaluate(sub, st, name)
+            if not (math.isnan(v) or math.isinf(v)) and v != int(v):
+                return True
+    return False
 
 
 def cell_value(cell):
@@ -218,7 +241,12 @@ def run(ctx):
                     ctx.distinct.add((t, q, "nt"))
                 ctx.hist("columns", n)
                 case = {"argv": [q], "tree": [x["rel"] for x in snap.nodes][:30]}
-                m, impl = corr.run_case(ctx, snap, [q], fmt="list", ncols=n + 1)
+                shaky = any(ill_conditioned(e, st, os.path.basename(rel)) for e in exprs for rel, st in stats.items())
+                if shaky:
+                    ctx.count("model_abstains_ill_conditioned_modulo")
+                    impl = common.run_cli([q], cwd=snap.root, scratch=scratch)
+                else:
+                    m, impl = corr.run_case(ctx, snap, [q], fmt="list", ncols=n + 1)
                 if impl["status"] != 0 or common.panicked(impl):
                     ctx.oracle_fail("arithmetic query rejected or crashed", case, detail={"status": impl["status"], "err": impl["err"][:300].decode("utf-8", "replace")})
                     continue
@@ -269,7 +297,10 @@ def run(ctx):
                     lit = r.choice([0, 1, 2, 3, 10, 100, 1000, 4096])
                     wq = "select path from . where %s %s %d into list" % (te, op, lit)
                     ctx.case((t, wq))
-                    mw, wi = corr.run_case(ctx, snap, [wq], fmt="list", ncols=1)
+                    if any(ill_conditioned(e, st, os.path.basename(rel)) for rel, st in stats.items()):
+                        wi = common.run_cli([wq], cwd=snap.root, scratch=scratch)
+                    else:
+                        mw, wi = corr.run_case(ctx, snap, [wq], fmt="list", ncols=1)
                     if wi["status"] != 0:
                         ctx.oracle_fail("WHERE on an expression rejected", {"argv": [wq]}, detail={"status": wi["status"], "err": wi["err"][:200].decode("utf-8", "replace")})
                         continue
